@@ -6,6 +6,9 @@ CHECKS = {
  "C05": {
   "text": "Structural preconditions of termination decided on MIR: barrier parties / spawn loops / sync-token loops all read config.num_threads and push one zero-size token per iteration (T1); every path round the worker loop passes a constant number of Barrier::wait calls, none under a lock, with no fallible early exit inside a round (T2); finalize pushes tokens, closes, joins all; workers leave only on pull()==None (T3); the lock-order graph over all pipeline-reachable bodies has no cycle between contexts that can run concurrently (phases derived from the barrier structure) and no blocking call holds a lock the other side needs (T4); every Condvar wait predicate can be falsified by the opposite operation for every parameter value (T5). Interleavings are not explored.",
   "ref": "DESIGN.md 4/C05", "note": TB, "technique": "static analysis: barrier-phase dataflow, lock-order graph with concurrency contexts, loop-bound provenance, wait-predicate classification over MIR facts"},
+ "C14": {
+  "text": "Panic/allocation audit of footer location and directory parsing (Archive::open in reader mode and its callees): every overflow/bounds/division assert, file-derived allocation, unwrap/expect and file-bounded loop in the MIR must be discharged by a dominating guard (linear inequality over branch conditions), interval arithmetic or a reasoned table entry; every part range stored from the directory must be checked against the data region; every fallible read is propagated up to Decompressor::open. Holds for every truncation offset because the tail is treated as arbitrary bytes; no file is parsed.",
+  "ref": "DESIGN.md 4/C14", "note": TB, "technique": "static analysis: panic-site enumeration over MIR with guard/interval discharge and result-discipline (error propagation) rules"},
 }
 PENDING = "check not built yet in this session (design exists in DESIGN.md); will be claimed once its rules run"
 NOT_APPLICABLE = {
